@@ -7,7 +7,7 @@ rs=${RS:-/tmp/rs}; vs=/tmp/vs-$commit${VSX:-}
 [ -d $rs ] || git -C /repo worktree add -q --detach $rs HEAD
 if [ ! -d $vs ]; then
     git -C /verif worktree add -q --detach $vs $commit
-    grep -rl '/repo/' $vs/crates/*/Cargo.toml | xargs sed -i "s#/repo/#$rs/#g"
+    grep -rl '/repo/' $vs/crates/*/Cargo.toml $vs/check | xargs sed -i "s#/repo/#$rs/#g"
 fi
 cd $vs
 git -C $rs checkout -q -- .
